@@ -501,6 +501,10 @@ __strfd_card(
 {
 	size_t res = 0;
 
+	if (UNLIKELY(bsz < 4U)) {
+		/* no room for the widest thing we put directly */
+		return 0U;
+	}
 	switch (s.spfl) {
 	default:
 	case DT_SPFL_UNK:
@@ -787,13 +791,17 @@ __strfd_dur(
 {
 	size_t res = 0;
 
+	if (UNLIKELY(bsz < 4U)) {
+		/* no room for the widest thing we put directly */
+		return 0U;
+	}
 	switch (s.spfl) {
 	default:
 	case DT_SPFL_UNK:
 		break;
 	case DT_SPFL_N_DSTD:
 	case DT_SPFL_N_DCNT_MON:
-		res = snprintf(buf, bsz, "%d", d->sd);
+		res = sntrunc(snprintf(buf, bsz, "%d", d->sd), bsz);
 		break;
 	case DT_SPFL_N_YEAR:
 		if (!d->y) {
@@ -802,10 +810,10 @@ __strfd_dur(
 			d->y = __uidiv(d->m, GREG_MONTHS_P_YEAR);
 			d->m = __uimod(d->m, GREG_MONTHS_P_YEAR);
 		}
-		res = snprintf(buf, bsz, "%d", d->y);
+		res = sntrunc(snprintf(buf, bsz, "%d", d->y), bsz);
 		break;
 	case DT_SPFL_N_MON:
-		res = snprintf(buf, bsz, "%d", d->m);
+		res = sntrunc(snprintf(buf, bsz, "%d", d->m), bsz);
 		break;
 	case DT_SPFL_N_DCNT_WEEK:
 		if (!d->w) {
@@ -814,10 +822,10 @@ __strfd_dur(
 			d->w = __uidiv(d->d, GREG_DAYS_P_WEEK);
 			d->d = __uimod(d->d, GREG_DAYS_P_WEEK);
 		}
-		res = snprintf(buf, bsz, "%d", d->w);
+		res = sntrunc(snprintf(buf, bsz, "%d", d->w), bsz);
 		break;
 	case DT_SPFL_N_WCNT_MON:
-		res = snprintf(buf, bsz, "%d", d->c);
+		res = sntrunc(snprintf(buf, bsz, "%d", d->c), bsz);
 		break;
 	case DT_SPFL_S_WDAY:
 	case DT_SPFL_S_MON:
